@@ -8,10 +8,10 @@ log=$out/confirm.log; : > $log
 cd $wt || exit 1
 git checkout -q -- include src 2>/dev/null
 echo "== demo WITHOUT the change" >> $log
-g++ -std=c++17 -I $wt/include -o /tmp/demo_$name.orig SEED/demo.cpp >> $log 2>&1 && (/tmp/demo_$name.orig > /tmp/demo_$name.out 2>&1; echo "exit=$?" >> $log; tail -3 /tmp/demo_$name.out >> $log)
+g++ -std=c++17 -pthread -I $wt/include -o /tmp/demo_$name.orig SEED/demo.cpp >> $log 2>&1 && (/tmp/demo_$name.orig > /tmp/demo_$name.out 2>&1; echo "exit=$?" >> $log; tail -3 /tmp/demo_$name.out >> $log)
 git apply SEED/patch.diff >> $log 2>&1 || { echo "PATCH DOES NOT APPLY" >> $log; exit 1; }
 echo "== demo WITH the change" >> $log
-g++ -std=c++17 -I $wt/include -o /tmp/demo_$name.mut SEED/demo.cpp >> $log 2>&1 && (timeout 60 /tmp/demo_$name.mut > /tmp/demo_$name.out 2>&1; echo "exit=$?" >> $log; tail -3 /tmp/demo_$name.out >> $log)
+g++ -std=c++17 -pthread -I $wt/include -o /tmp/demo_$name.mut SEED/demo.cpp >> $log 2>&1 && (timeout 60 /tmp/demo_$name.mut > /tmp/demo_$name.out 2>&1; echo "exit=$?" >> $log; tail -3 /tmp/demo_$name.out >> $log)
 echo "== suite WITH the change" >> $log
 (cmake -G Ninja -B _b -DCMAKE_BUILD_TYPE=RelWithDebInfo -DYOMM2_ENABLE_TESTS=ON -DCMAKE_CXX_FLAGS=-Wno-error >/dev/null 2>&1 && cmake --build _b -j8 >/dev/null 2>&1 && ctest --test-dir _b -j8 --timeout 900 2>&1 | tail -3) >> $log 2>&1
 rm -rf _b /tmp/demo_$name.orig /tmp/demo_$name.mut /tmp/demo_$name.out
